@@ -335,7 +335,7 @@ let id_siblings st env : item list * env =
   let a = fresh st and b = fresh st and d = fresh st and n = fresh st and m = fresh st and x = fresh st in
   flag st "siblings";
   let l1 = lit st and l2 = lit st in
-  match Rng.int st.rng 5 with
+  match Rng.int st.rng 8 with
   | 0 ->
     (* forward chain a -> b -> d in a random order of declaration; every member reads the captured c and k *)
     let fa = IFunc (fdef a [] TInt [IExpr (bin Add (bin Mul (call b [ei 2]) (ei 10)) (ev c))]) in
@@ -388,6 +388,50 @@ let id_siblings st env : item list * env =
          IExpr (bin Add (call mid []) (call h []))] in
     let ov = mkv ~fcost:40 ~firstclass:true ~fvars:[false] outer (TFun ([TInt], TInt)) BFunc env.lvl in
     ([IFunc ofd; let_ res (call outer [lit st]); pr (ev res)], bindv (bind env ov) res TInt BLet)
+  | 5 ->
+    (* a function h nested in the NAMED NESTED function f mentions f itself (known finding
+       nested-self-reference-through-inner-closure, fixed in /repo c90fbb4): f inside another function,
+       or directly in main; h reads variables of every level *)
+    let f = fresh st and h = fresh st and j = fresh st in
+    let deep = Rng.bool st.rng in
+    let ffd = fdef f [(n, false, TInt)] TInt
+        [IFunc (fdef h [(j, false, TInt)] TInt
+                  [IExpr (ECond (bin Le (ev j) (ei 0), bin Add (ei 100) (if deep then ev k else ev n),
+                                 bin Add (call f [bin Sub (ev j) (ei 1)]) (bin Mul (ev n) (ei 10))))]);
+         IExpr (ECond (bin Le (ev n) (ei 0), ei 1, call h [ev n]))] in
+    let arg = ei (Rng.range st.rng 0 4) in
+    if deep then
+      let ofd = fdef outer [(k, false, TInt)] TInt [let_ c (bin Add (ev k) l1); IFunc ffd; IExpr (bin Add (call f [arg]) (ev c))] in
+      let ov = mkv ~fcost:120 ~firstclass:true ~fvars:[false] outer (TFun ([TInt], TInt)) BFunc env.lvl in
+      ([IFunc ofd; pr (call outer [lit st]); pr (call outer [filler st env])], bind env ov)
+    else ([IFunc ffd; let_ res (call f [arg]); pr (ev res); pr (call f [ei (Rng.range st.rng 0 3)])], bindv env res TInt BLet)
+  | 6 ->
+    (* the same two function levels further in: f { m { h mentions f } } *)
+    let f = fresh st and h = fresh st and j = fresh st and mm = fresh st and y = fresh st in
+    let ffd = fdef f [(n, false, TInt)] TInt
+        [IFunc (fdef mm [(y, false, TInt)] TInt
+                  [IFunc (fdef h [(j, false, TInt)] TInt
+                            [IExpr (ECond (bin Le (ev j) (ei 0), bin Add (ev c) (ev y),
+                                           bin Add (call f [bin Sub (ev j) (ei 1)]) (bin Add (ev y) (bin Mul (ev n) (ei 100)))))]);
+                   IExpr (call h [ev y])]);
+         IExpr (ECond (bin Le (ev n) (ei 0), ev k, call mm [ev n]))] in
+    let ofd = fdef outer [(k, false, TInt)] TInt [let_ c (bin Add (ev k) l1); IFunc ffd; IExpr (call f [ei (Rng.range st.rng 0 4)])] in
+    let ov = mkv ~fcost:120 ~firstclass:true ~fvars:[false] outer (TFun ([TInt], TInt)) BFunc env.lvl in
+    ([IFunc ofd; pr (call outer [lit st]); pr (call outer [filler st env])], bind env ov)
+  | 7 ->
+    (* h (which mentions its enclosing named nested f) is returned and called after f, and the function
+       around f, have returned; every call of h makes new activations of f *)
+    let f = fresh st and h = fresh st and j = fresh st and g = fresh st in
+    let t1 = TFun ([TInt], TInt) in
+    let ffd = fdef f [(n, false, TInt)] t1
+        [IFunc (fdef h [(j, false, TInt)] TInt
+                  [IExpr (ECond (bin Le (ev j) (ei 0), bin Add (bin Mul (ev n) (ei 10)) (ev k),
+                                 bin Add (ECall (call f [bin Add (ev n) (ei 1)], [bin Sub (ev j) (ei 1)])) (ei 1000)))]);
+         IExpr (ev h)] in
+    let ofd = fdef outer [(k, false, TInt)] t1 [IFunc ffd; IExpr (call f [l1])] in
+    let ov = mkv ~fcost:20 ~fvars:[false] outer (TFun ([TInt], t1)) BFunc env.lvl in
+    ([IFunc ofd; let_ g (call outer [lit st]); pr (ECall (ev g, [ei (Rng.range st.rng 0 3)])); pr (ECall (ev g, [ei 1]));
+      pr (ECall (call outer [lit st], [ei 2]))], bind env ov)
   | _ ->
     (* an earlier sibling hands a later one out as a value; called after the definer returned *)
     let t1 = TFun ([TInt], TInt) in
@@ -800,6 +844,93 @@ let id_tempcall st env : item list * env =
               @ [pr (ECall (ev held, [ei 2]))] in
   (items, env)
 
+(* function-typed CELLS that are re-assigned: a var, a captured var, a var parameter, a record field, an
+   array element holding a closure gets a closure made by the SAME lambda / nested function in ANOTHER
+   activation (other captured values, another captured var cell); then calls through every holder:
+   the new captured values must be seen, and counters must share the cell of the source afterwards.
+   Controls: a closure of a different literal in between, self assignment, assignment in a loop. *)
+let id_rebind st env : item list * env =
+  flag st "rebind"; flag st "closure_escape";
+  let t1 = TFun ([TInt], TInt) and t0 = TFun ([], TInt) in
+  let adder = fresh st and n = fresh st and x = fresh st and gname = fresh st in
+  let counter = fresh st and s = fresh st and c = fresh st in
+  let named = Rng.pct st.rng 40 in
+  let mul = Rng.pick st.rng [1; 2; 10] in
+  let abody = bin Add (bin Mul (ev x) (ei mul)) (ev n) in
+  let adder_fd =
+    if named then fdef adder [(n, false, TInt)] t1 [IFunc (fdef gname [(x, false, TInt)] TInt [IExpr abody]); IExpr (ev gname)]
+    else fdef adder [(n, false, TInt)] t1 [IExpr (lam st [(x, false, TInt)] TInt [IExpr abody])] in
+  let step = Rng.range st.rng 1 3 in
+  let counter_fd = fdef counter [(s, false, TInt)] t0
+      [var_ c (bin Add (ev s) (ei 0)); IExpr (lam st [] TInt [IExpr (asg (ev c) (bin Add (ev c) (ei step))); IExpr (ev c)])] in
+  (* a TEMP expression (may initialise a var): both arms are activations of the same literal *)
+  let nc mk = ECond (fillerb st env, mk (), mk ()) in
+  let add () = call adder [lit st] and cnt () = call counter [bin Mul (lit st) (ei 100)] in
+  let forms = Rng.shuffle st.rng [0; 1; 2; 3; 4; 5; 6; 7] in
+  let rec take k l = if k <= 0 then [] else match l with [] -> [] | h :: t -> h :: take (k - 1) t in
+  let one form =
+    match form with
+    | 0 ->
+      let f = fresh st and g = fresh st in
+      [var_ f (nc add); var_ g (nc add); pr (ECall (ev f, [ei 1])); IExpr (asg (ev f) (ev g)); pr (ECall (ev f, [ei 1]))]
+      @ (if Rng.bool st.rng then
+           let y = fresh st in
+           [IExpr (asg (ev f) (lam st [(y, false, TInt)] TInt [IExpr (bin Mul (ev y) (ei 2))])); pr (ECall (ev f, [ei 1]));
+            IExpr (asg (ev f) (ev g)); pr (ECall (ev f, [ei 1]))]
+         else [IExpr (asg (ev f) (ev f)); pr (ECall (ev f, [ei 2])); IExpr (asg (ev f) (add ())); pr (ECall (ev f, [ei 1]))])
+    | 1 ->
+      let k1 = fresh st and k2 = fresh st in
+      [var_ k1 (nc cnt); var_ k2 (nc cnt); pr (ECall (ev k1, [])); pr (ECall (ev k2, [])); IExpr (asg (ev k1) (ev k2));
+       pr (ECall (ev k1, [])); pr (ECall (ev k2, [])); pr (ECall (ev k1, []))]
+    | 2 ->
+      (* record fields *)
+      let counters = Rng.bool st.rng in
+      let ft = if counters then t0 else t1 in
+      let r = need_record st [ft; ft] and p = fresh st in
+      let mk = if counters then cnt else add in
+      let args = if counters then [] else [ei 1] in
+      [let_ p (ERecNew (nn r, [mk (); mk ()])); pr (ECall (fld (ev p) r 0, args)); IExpr (asg (fld (ev p) r 0) (fld (ev p) r 1));
+       pr (ECall (fld (ev p) r 0, args)); pr (ECall (fld (ev p) r 1, args)); pr (ECall (fld (ev p) r 0, args));
+       IExpr (asg (fld (ev p) r 1) (mk ())); pr (ECall (fld (ev p) r 1, args)); pr (ECall (fld (ev p) r 0, args))]
+    | 3 ->
+      (* array elements *)
+      let fs = fresh st in
+      let a = Rng.int st.rng 3 in
+      let b = (a + 1 + Rng.int st.rng 2) mod 3 in
+      [var_ fs (EArrLit ([cnt (); cnt (); cnt ()], t0)); pr (ECall (idx (ev fs) (ei a), []));
+       IExpr (asg (idx (ev fs) (ei a)) (idx (ev fs) (ei b)));
+       pr (ECall (idx (ev fs) (ei a), [])); pr (ECall (idx (ev fs) (ei b), [])); pr (ECall (idx (ev fs) (ei a), []));
+       pr (ECall (idx (ev fs) (ei (3 - a - b)), []))]
+    | 4 ->
+      (* the re-assigned var is captured by another closure, which also re-assigns it *)
+      let h = fresh st and callh = fresh st and seth = fresh st and v = fresh st in
+      [var_ h (nc add); let_ callh (lam st [] TInt [IExpr (ECall (ev h, [ei 1]))]);
+       let_ seth (lam st [(v, false, TInt)] TInt [IExpr (asg (ev h) (call adder [ev v])); IExpr (ei 0)]);
+       pr (ECall (ev callh, [])); IExpr (asg (ev h) (add ())); pr (ECall (ev callh, []));
+       IExpr (ECall (ev seth, [lit st])); pr (ECall (ev callh, [])); pr (ECall (ev h, [ei 2]))]
+    | 5 ->
+      (* through a var parameter *)
+      let setf = fresh st and pf = fresh st and pg = fresh st and h = fresh st in
+      [IFunc (fdef setf [(pf, true, t1); (pg, false, t1)] TInt [IExpr (asg (ev pf) (ev pg)); IExpr (ECall (ev pf, [ei 1]))]);
+       var_ h (nc add); pr (ECall (ev h, [ei 1])); pr (call setf [ev h; add ()]); pr (ECall (ev h, [ei 1]))]
+    | 6 ->
+      (* in a loop: every iteration another activation *)
+      let f = fresh st and i = fresh st and acc = fresh st in
+      let m = Rng.range st.rng 2 4 in
+      [var_ f (nc add); var_ acc (ei 0); var_ i (ei 0);
+       IExpr (EWhile (bin Lt0 (ev i) (ei m),
+                      EBlock [IExpr (asg (ev f) (call adder [bin Mul (ev i) (ei 100)]));
+                              IExpr (asg (ev acc) (bin Add (ev acc) (ECall (ev f, [ev i]))));
+                              IExpr (asg (ev i) (bin Add (ev i) (ei 1)))]));
+       pr (ev acc); pr (ECall (ev f, [ei 0]))]
+    | _ ->
+      (* counters: a copy made BEFORE the assignment keeps the old cell *)
+      let k1 = fresh st and k2 = fresh st and old = fresh st in
+      [var_ k1 (nc cnt); var_ k2 (nc cnt); let_ old (ECond (fillerb st env, ev k1, ev k1)); IExpr (asg (ev k1) (ev k2));
+       pr (ECall (ev k1, [])); pr (ECall (ev k2, [])); pr (ECall (ev old, []))] in
+  let items = List.concat (List.map one (take (Rng.range st.rng 2 4) forms)) in
+  ([IFunc adder_fd; IFunc counter_fd] @ items, env)
+
 (* ---- shadowing -------------------------------------------------------------------------------------- *)
 let id_shadow st env : item list * env =
   (* one name bound at every binder kind in nested scopes; every level prints what it sees *)
@@ -1174,5 +1305,5 @@ let id_forin st env : item list * env =
 
 let all = [ "id_pipe", id_pipe; "id_order", id_order; "id_alias", id_alias; "id_counter", id_counter; "id_adder", id_adder;
             "id_loopcap", id_loopcap; "id_reccap", id_reccap; "id_compose", id_compose; "id_deepcap", id_deepcap; "id_catch", id_catch;
-            "id_siblings", id_siblings; "id_catchcap", id_catchcap; "id_tempcall", id_tempcall; "id_forin", id_forin;
+            "id_siblings", id_siblings; "id_rebind", id_rebind; "id_catchcap", id_catchcap; "id_tempcall", id_tempcall; "id_forin", id_forin;
             "id_shadow", id_shadow; "id_shadow2", id_shadow2; "id_shadow3", id_shadow3; "id_agg", id_agg; "id_tail", id_tail; "id_mutual", id_mutual ]
